@@ -18,7 +18,7 @@ impl Scenario for C13 {
 
     fn budget(&self, tier: Tier) -> (u64, u64) {
         match tier {
-            Tier::Quick => (3000, 120),
+            Tier::Quick => (6000, 120),
             Tier::Thorough => (120_000, 1500),
         }
     }
